@@ -318,7 +318,7 @@ class CacheFn:
             self.refuse("++ on something that is not `unsigned`", n)
         return tgt, "(.assign %s (.add %s (.u32 1)))" % (lv, self.expr(tgt))
 
-    def decl(self, d, in_loop=False):
+    def decl(self, d):
         out = []
         for v in kids(d):
             if v.get("kind") != "VarDecl":
@@ -426,10 +426,6 @@ class CacheFn:
 
     def comment(self):
         return ", ".join("%d = %s" % (i, n) for i, n in enumerate(self.names))
-
-
-def top_methods(docs, cls_id_of=None):
-    return [d for d in docs if d.get("kind") in ("CXXMethodDecl", "CXXConstructorDecl")]
 
 
 def find_out_of_line(docs, name, nparams=None, kind="CXXMethodDecl"):
@@ -1347,10 +1343,6 @@ class World:
             return cls, bm
         return None
 
-    def qualified_call_owner(self, cls, me):
-        """`search<T,ES>::foo()` written inside src_search is a NON-virtual call of the base version"""
-        return None
-
     def evolution_run(self, caller, call, args):
         ev = self.classes["evolution"]
         want = qtype(args[1]) if len(args) == 2 else ""
@@ -1435,7 +1427,7 @@ def render(res):
     for k in ("keyEq", "index", "ctorMask", "ctorTable", "ctorSeal", "find", "insert", "clear", "clearKey"):
         t, names, ty = res["cache"][k]
         L.append("/-- %s   (locals: %s) -/" % (titles[k], names))
-        L.append("def %s : %s :=\n  %s" % (k, ty, t.lstrip("(").rstrip(")") if False else t))
+        L.append("def %s : %s :=\n  %s" % (k, ty, t))
         L.append("")
     for k, title in (("proxyCall", "evaluator_proxy<T,E>::operator()(const T &prg)"), ("proxyClear", "evaluator_proxy<T,E>::clear()")):
         t, names, ty = res["proxy"][k]
